@@ -157,6 +157,32 @@ func (c *child) kill() {
 	delete(children, c.mode)
 }
 
+// callPatience: how long a command may take before the child counts as hung. A case that ends in "hang" is measured
+// again ONCE in a fresh child with three times the patience (retryHang) before it is reported: on a machine at load
+// 200 a single update with a 64 KiB line and a detailed routes diff took longer than a minute.
+var callPatience = 60 * time.Second
+
+// retryHang runs a case again with a longer patience when its first run ended in a hang of the child.
+func retryHang(mode string, run func() (interface{}, error)) (interface{}, error) {
+	out, err := run()
+	m, ok := out.(map[string]interface{})
+	if err != nil || !ok {
+		return out, err
+	}
+	c, ok := m["crash"].(map[string]interface{})
+	if !ok || c["hang"] != true {
+		return out, err
+	}
+	old := callPatience
+	callPatience = 3 * old
+	defer func() { callPatience = old }()
+	if ch := children[mode]; ch != nil {
+		ch.kill()
+		delete(children, mode)
+	}
+	return run()
+}
+
 var errChildDied = errors.New("child died")
 var errChildHung = errors.New("child hung")
 
@@ -182,7 +208,7 @@ func (c *child) call(cmd map[string]interface{}) (json.RawMessage, error) {
 			return nil, errChildDied
 		}
 		return json.RawMessage(r.line), nil
-	case <-time.After(60 * time.Second):
+	case <-time.After(callPatience):
 		return nil, errChildHung
 	}
 }
